@@ -85,6 +85,7 @@ def run(chk, prog):
     # estimate_normalizing_constant
     SA = prog.cls("SMCAlgorithm", SMC)
     ev = Evaluator(prog)
+    ev.ctor_methods.add("log_marginal_likelihood_estimate")  # ChangeTarget(self, target).log_marginal_likelihood_estimate(k): the retargeted algorithm's own estimate, read through
     r = ev.eval_fn(SA.methods["estimate_normalizing_constant"], SA.module, SA)
     t = r.ret
     ok = is_mcall(t, "get_log_marginal_likelihood_estimate") and is_mcall(t[1][1], "run_smc") and t[1][1][1][1] == ("ctor", "ChangeTarget", (P("self"), P("target")), ())
